@@ -15,21 +15,23 @@ type hev struct { // history entry
 }
 
 type oracle struct {
-	kind     string
-	spe, epp uint64
-	latest   map[uint64][]duty // most recent successful assignment per epoch/period (committee members only)
-	older    map[uint64][]duty // every duty of every earlier successful assignment per epoch/period
-	due      map[uint64][]duty // obligations; cleared by every failed / skipped fetch
-	done     map[[3]uint64]bool
-	hist     []hev
-	fetchAt  map[uint64]int  // history index of the most recent successful fetch per key
-	stale    map[uint64]bool // epoch/period whose fetched assignment was declared out of date by a notice and not re-fetched successfully since
-	tainted  bool            // sync: a fetch could not be attributed to a period (clock in another period than the tick)
-	lines    []string
+	kind       string
+	spe, epp   uint64
+	latest     map[uint64][]duty // most recent successful assignment per epoch/period (committee members only)
+	older      map[uint64][]duty // every duty of every earlier successful assignment per epoch/period
+	due        map[uint64][]duty // obligations; cleared by every failed / skipped fetch
+	done       map[[3]uint64]bool
+	hist       []hev
+	fetchAt    map[uint64]int    // history index of the most recent successful fetch per key
+	stale      map[uint64]bool   // epoch/period whose fetched assignment was declared out of date by a notice and not re-fetched successfully since
+	suspended  map[uint64][]duty // assignment voided by a FAILED re-fetch after a notice declared it out of date
+	notRetried map[uint64]bool   // … owed again: a later tick could have re-fetched it (scripted ok) and the handler did not ask
+	tainted    bool              // sync: a fetch could not be attributed to a period (clock in another period than the tick)
+	lines      []string
 }
 
 func newOracle(kind string, spe, epp uint64) *oracle {
-	return &oracle{kind: kind, spe: spe, epp: epp, latest: map[uint64][]duty{}, older: map[uint64][]duty{}, due: map[uint64][]duty{}, done: map[[3]uint64]bool{}, fetchAt: map[uint64]int{}, stale: map[uint64]bool{}}
+	return &oracle{kind: kind, spe: spe, epp: epp, latest: map[uint64][]duty{}, older: map[uint64][]duty{}, due: map[uint64][]duty{}, done: map[[3]uint64]bool{}, fetchAt: map[uint64]int{}, stale: map[uint64]bool{}, suspended: map[uint64][]duty{}, notRetried: map[uint64]bool{}}
 }
 
 func (o *oracle) keyOfSlot(s uint64) uint64 {
@@ -159,13 +161,23 @@ func (o *oracle) observe(p op, atoms []atom) []violation {
 				}
 				o.fetchAt[k] = len(o.hist)
 				delete(o.stale, k)
+				delete(o.suspended, k)
+				delete(o.notRetried, k)
 			default:
 				// fail, noidx, unscripted. A failed fetch does NOT cancel an assignment that had been fetched
 				// successfully: it stays owed. Only exception: the assignment of this epoch (period) was declared
 				// out of date by a reorg / indices-change notice since it was fetched (the handlers then drop it and
 				// must re-fetch) and this is the failed re-fetch — then nothing is owed for it until the next success.
+				// That exception lasts only while the beacon node really is unavailable: see the end of this function.
 				k := o.keyOfArg(a.arg)
 				if o.stale[k] {
+					if a.tag == "fail" {
+						if d, ok := o.due[k]; ok {
+							o.suspended[k] = d
+						}
+					} else { // no active validators any more: nothing is owed for them
+						delete(o.suspended, k)
+					}
 					delete(o.due, k)
 				}
 			}
@@ -244,6 +256,29 @@ func (o *oracle) observe(p op, atoms []atom) []violation {
 				vs = append(vs, violation{o.classifyLossFrom(key, fetchAtBefore[key], firstTickOfKey), fmt.Sprintf("tick %d: duty slot %d validator %d tag %d of the successfully fetched assignment of epoch/period %d was not dispatched (nothing was dispatched)", p.slot, d.slot, d.vidx, d.tag, key)})
 			}
 		}
+		// Retry: an assignment suspended by a failed re-fetch stays suspended only while the beacon node is
+		// unavailable. If this tick belongs to that epoch (period) or the one before, every scripted fetch outcome of
+		// the tick is `ok` (whatever the handler had asked would have been answered) and the handler did not ask for
+		// that epoch (period) at all, the handler gave up on it: the assignment is owed again.
+		if !o.tainted && p.f1.kind == 'o' && p.f2.kind == 'o' {
+			tk := o.keyOfSlot(p.slot)
+			for k, d := range o.suspended {
+				if tk != k && tk+1 != k {
+					continue
+				}
+				asked := false
+				for _, a := range atoms {
+					if a.fetch && o.keyOfArg(a.arg) == k {
+						asked = true
+					}
+				}
+				if !asked {
+					o.due[k] = d
+					o.notRetried[k] = true
+					delete(o.suspended, k)
+				}
+			}
+		}
 		o.hist = append(o.hist, hev{name: "tick", slot: p.slot, key: o.keyOfSlot(p.slot)})
 	}
 	return vs
@@ -266,6 +301,9 @@ func (o *oracle) classifyLoss(key uint64, firstTickOfKey bool) string {
 }
 
 func (o *oracle) classifyLossFrom(key uint64, from int, firstTickOfKey bool) string {
+	if o.notRetried[key] {
+		return "C16/" + kindName[o.kind] + "-refetch-not-retried-after-failure"
+	}
 	// A tick handled after a reorg(previous) notice that carries a slot of a LATER epoch: the notice resets the
 	// already fetched duties of that epoch (`ResetEpoch(currentEpoch)` of the notice's epoch) without setting
 	// fetchNextEpoch when its slot is in the first half of the epoch; the late tick consumes fetchFirst for its own
